@@ -17,7 +17,7 @@ BORROW = [
     "pv.corpora.c18",
 ]  # fmt: skip
 
-CORE_PREFIXES = ("c02.t.", "c03.", "c04.t.", "c04.g.", "c05.pos.", "c05.arr", "c05.grouping", "c05.typed", "c06.", "c07.", "c09.", "c16.refs", "c16.self_join", "c17.", "c18.eq")
+CORE_PREFIXES = ("c02.t.", "c03.", "c04.t.", "c04.g.", "c05.pos.", "c05.arr", "c05.grouping", "c05.typed", "c06.", "c07.", "c09.", "c16.refs", "c16.self_join", "c17.", "c18.eq", "c01.tm.")
 
 
 def templates(cfg):
@@ -29,6 +29,9 @@ def templates(cfg):
             continue
         for tp in mod.templates(cfg):
             allt.append(dataclasses.replace(tp, name="c01~" + tp.name, props=("C01",), mode="cross", prog2=None))
+    from . import temporal
+
+    allt += [dataclasses.replace(tp, name="c01~" + tp.name, mode="cross") for tp in temporal.templates_for("C01", cfg)]
     if cfg.tier != "quick":
         core = [t for t in allt if t.name[4:].startswith(CORE_PREFIXES)]
         rest = [t for t in allt if t not in core]
